@@ -570,10 +570,11 @@ class Engine:
             # entry bindings resolved against the *current* heap (array contents now)
             ns.__dict__["arg"] = Namespace({k: self.resolve(v, st.heap) for k, v in entry.env.items()})
         ns.__dict__["ghost"] = Namespace({k: self.resolve(v, st.heap) for k, v in st.ghost.items()
-                                          if not k.startswith("#")})
+                                          if not k.startswith("#") and not k.startswith("py:")})
         if "#out" in st.ghost:
             from . import generators
             ns.__dict__["out"] = generators.SeqV(st.ghost["#nout"], st.ghost["#out"])
+        ns.__dict__["pyghost"] = {k: v for k, v in st.ghost.items() if k.startswith("py:")}
         return ns
 
     # -- obligations ----------------------------------------------------------------
@@ -641,6 +642,10 @@ class Engine:
             return z3.Const("arr:" + v.base, V)
         if isinstance(v, Named):
             return z3.Const("global:" + v.name, V)
+        if isinstance(v, Exc):
+            if isinstance(v.payload, Opq):
+                return v.payload.t
+            return z3.Const("exc:" + v.cls, V)
         if isinstance(v, (list, tuple)):
             f = z3.Function(f"pyseq{len(v)}", *([V] * (len(v) + 1)))
             return f(*[self.to_v(x) for x in v]) if v else z3.Const("pyseq:empty", V)
@@ -693,7 +698,18 @@ class Engine:
         raise Unsupported(f"constant {v!r}")
 
     def ev_JoinedStr(self, e, st, fr, k):
-        return k(Opq(self.fresh("fstr", "V")), st)
+        # an f-string made only of literals and names bound to Python strings is folded (dict keys such as
+        # f"{desc}_time"); any other f-string is an opaque message text
+        parts = []
+        for v in e.values:
+            if isinstance(v, ast.Constant) and isinstance(v.value, str):
+                parts.append(v.value)
+            elif isinstance(v, ast.FormattedValue) and isinstance(v.value, ast.Name) and v.format_spec is None \
+                    and v.conversion == -1 and isinstance(st.env.get(v.value.id), str):
+                parts.append(st.env[v.value.id])
+            else:
+                return k(Opq(self.fresh("fstr", "V")), st)
+        return k("".join(parts), st)
 
     def ev_Name(self, e, st, fr, k):
         if e.id in st.env:
@@ -878,6 +894,8 @@ class Engine:
             return z3.Or(x, y) if isinstance(op, ast.BitOr) else z3.And(x, y)
         if isinstance(op, ast.Add) and isinstance(a, (list, tuple)) and isinstance(b, (list, tuple)):
             return type(a)(list(a) + list(b))
+        if isinstance(op, ast.Add) and isinstance(a, Ref) and a.kind == "list" and isinstance(b, list):
+            return ("#list_extend", a, b)      # resolved by the assignment (it needs the state)
         if isinstance(op, (ast.Add, ast.Mod)) and (isinstance(a, str) or isinstance(b, str)):
             return Opq(self.fresh("string", "V"))     # string concatenation / formatting: an opaque string
         if isinstance(op, ast.Add) and ((isinstance(a, (list, tuple)) and isinstance(b, Opq)) or
@@ -1232,6 +1250,10 @@ class Engine:
                 except _UndecidedFilter:
                     cid = self.comp_ordinal(e)
                     return k(Opq(z3.Const(f"comp:{self.cur.qualname.split('.')[-1]}:{cid}", V)), s0)
+            # ``[x for x in L if cond(x)]`` over a heap list: the sub-list of the elements satisfying cond, in order
+            if kind == "list" and isinstance(it, Ref) and it.kind == "list" and len(g.ifs) == 1 \
+                    and isinstance(e.elt, ast.Name) and isinstance(g.target, ast.Name) and e.elt.id == g.target.id:
+                return self.filter_list(it, g, s0, fr, k, e)
             # symbolic sequence (heap list / array column / zip of them): a lazy element-wise vector
             if kind in ("list", "gen") and not g.ifs and (
                     (isinstance(it, Ref) and it.kind == "list") or isinstance(it, (Arr, Vec, PyZip, PyEnum))):
@@ -1263,6 +1285,47 @@ class Engine:
                 return k(res, s0)
             raise Unsupported(f"comprehension over {type(it).__name__}")
         return self.ev(g.iter, st, fr, with_iter)
+
+    def filter_list(self, it, g, st, fr, k, node):
+        """Trusted model of a filtering list comprehension over a symbolic list: a new list holding exactly the
+        elements whose condition is true, in their original order (ghost index maps as for mask indexing)."""
+        from .library import new_int_array
+        cell = st.heap[it.base]
+        if "items" not in cell:
+            raise Unsupported("filter over a list of tuples")
+        src_items, n = cell["items"], cell["n"]
+        q = self.fresh("fi")
+        got = []
+
+        def bound(s2):
+            return self.ev(g.ifs[0], s2, fr, lambda v, s3: got.append(self.truth(v)))
+        self.assign(g.target, self.from_sort(z3.Select(src_items, q)), st, fr, bound, node)
+        if len(got) != 1:
+            raise Unsupported("filter condition that branches")
+        cond = lambda i: z3.substitute(got[0], (q, i if _is_z3(i) else z3.IntVal(i)))
+        base = self.new_base("filtered_list")
+        m = self.fresh_len(base)
+        items = self.fresh(base + ".items", src_items.sort())
+        st = St(st.env, {**st.heap, base: {"n": m, "items": items}}, st.pc, st.ghost)
+        idx, st = new_int_array(self, st, "fidx", m)
+        pos, st = new_int_array(self, st, "fpos", n)
+        iv, pv = ArrV(self, idx, st.heap), ArrV(self, pos, st.heap)
+        S = self.S
+        self.assumptions.add("library model: a filtering list comprehension keeps exactly the elements satisfying its condition, in order")
+        st = st.assume(z3.And(m >= 0, m <= n))
+        st = st.assume(S.forall(0, m, lambda j: z3.And(0 <= iv.at(j), iv.at(j) < n, cond(iv.at(j)),
+                                                       z3.Select(items, j) == z3.Select(src_items, iv.at(j)))))
+        st = st.assume(S.forall2(0, m, 0, m, lambda i, j: z3.Implies(i < j, iv.at(i) < iv.at(j))))
+        st = st.assume(S.forall(0, n, lambda i: z3.Implies(cond(i), z3.And(0 <= pv.at(i), pv.at(i) < m, iv.at(pv.at(i)) == i))))
+        # a consequence of the three facts above, stated directly (it gives the solver the witness position):
+        # every source element satisfying the condition occurs in the result
+        if S.finite is None:
+            qi = z3.Int("flt_i")
+            st = st.assume(z3.ForAll([qi], z3.Implies(z3.And(0 <= qi, qi < n, cond(qi)),
+                                                      z3.And(0 <= pv.at(qi), pv.at(qi) < m,
+                                                             z3.Select(items, pv.at(qi)) == z3.Select(src_items, qi))),
+                                     patterns=[z3.Select(src_items, qi)]))
+        return k(Ref(base, "list"), st)
 
     def comp_ordinal(self, e):
         """1-based ordinal of a comprehension among the comprehensions of the current function (source order)."""
@@ -1346,6 +1409,17 @@ class Engine:
         return Arr(base, "", z3.IntVal(0), n), st
 
     def assign(self, tgt, v, st, fr, k, node):
+        if isinstance(v, tuple) and len(v) == 3 and v[0] == "#list_extend":
+            # ``L = L + [x, ...]`` / ``L += [x, ...]``: a new list with the elements appended
+            _, ref, extra = v
+            cell = st.heap[ref.base]
+            base = self.new_base("list")
+            items, n = cell["items"], cell["n"]
+            for x in extra:
+                items = z3.Store(items, n, self.to_sort(x, items.range()))
+                n = n + 1
+            st = St(st.env, {**st.heap, base: {"n": n, "items": items}}, st.pc, st.ghost)
+            v = Ref(base, "list")
         if isinstance(tgt, ast.Name):
             if isinstance(v, Vec):
                 v, st = self.materialize(v, st, tgt.id)
@@ -1390,6 +1464,22 @@ class Engine:
                 and tgt.value.id in self.cur.store_hooks:
             h = self.cur.store_hooks[tgt.value.id]
             return self.ev(tgt.slice, st, fr, lambda key, s1: k(h(self, s1, key, v, node)))
+        if isinstance(tgt, ast.Subscript) and isinstance(tgt.value, (ast.Name, ast.Attribute)):
+            # ``d[key] = v`` on a literal dict held by value: rebind the location to the updated dict
+            def try_dict(base, s):
+                if not isinstance(base, dict):
+                    return None
+                def with_key(key, s2):
+                    if not isinstance(key, str):
+                        raise Unsupported("store into a literal dict with a non-constant key")
+                    new = dict(base)
+                    new[key] = v
+                    return self.assign(tgt.value, new, s2, fr, k, node)
+                return self.ev(tgt.slice, s, fr, with_key)
+            probe = []
+            self.ev(tgt.value, st, fr, lambda b, s: probe.append((b, s)))
+            if len(probe) == 1 and isinstance(probe[0][0], dict):
+                return try_dict(*probe[0])
         if isinstance(tgt, ast.Subscript):
             def cont(base, s):
                 if isinstance(tgt.slice, ast.Slice):
@@ -1638,7 +1728,15 @@ class Engine:
             return run_finally(st2, k)
 
         def outer_raise(exc, st2):
-            return run_finally(st2, lambda s3: fr.on_raise(exc, s3))
+            # the finally block runs while ``exc`` propagates (sys.exc_info() is set)
+            prev = st2.ghost.get("#propagating")
+            st3 = St(st2.env, st2.heap, st2.pc, {**st2.ghost, "#propagating": exc})
+
+            def done(s3):
+                g = dict(s3.ghost)
+                g["#propagating"] = prev
+                return fr.on_raise(exc, St(s3.env, s3.heap, s3.pc, g))
+            return run_finally(st3, done)
 
         fr_out = fr
         if has_finally:
